@@ -81,7 +81,9 @@ def _impl_outcome(call, post=None):
             out.append(None)
         else:
             v = float(item[0].value)
-            if not math.isfinite(v):
+            if math.isinf(v):
+                out.append("inf")
+            elif not math.isfinite(v):
                 out.append("nan")
             else:
                 out.append(post(v) if post else v)
@@ -186,7 +188,7 @@ def run(ctx):
                 if gen_ok and v not in names.get(fn, []):
                     continue
                 out, _ = _impl_outcome(lambda: getattr(corr, fn)(v))
-                if not isinstance(out, str) and "nan" in out:
+                if not isinstance(out, str) and ("nan" in out or "inf" in out):
                     ctx.skip("non-finite value in implementation result")
                     continue
                 model = "st_%s_%s" % (fn, v) if gen_ok else "spec_%s_%s" % (fn, v)
@@ -205,6 +207,12 @@ def run(ctx):
             out, _ = _impl_outcome(lambda: corr.m_eff(v), post)
             if not isinstance(out, str):
                 out = [None if x == "nan" else x for x in out]   # NaN -> undefined is part of the documented behaviour (_apply_func_to_corr)
+                if "inf" in out:
+                    # an infinite central value is not "undefined": the timeslice is reported as defined although the formula has no real value
+                    tt = out.index("inf")
+                    ctx.fail("m_eff:%s:defined-with-infinite-value" % v, "m_eff('%s') returns an observable with an infinite central value at t=%d (T=%d, values %s): the documented formula has no real value there and the timeslice must be undefined" % (v, tt, T, vals),
+                             {"method": "m_eff", "variant": v, "T": T, "t": tt, "values": vals})
+                    continue
             model = "ms_m_eff_%s" % v if gen_ok else "spec_m_eff_%s" % v
             # skip patterns where a ratio is within 2^-20 of the domain boundary of the outer function
             term = "(mkMC %s spec_m_eff_%s %d%%nat %s %s tol20 tol20)" % (model, v, code, _content_term(vals), _impl_term(out))
@@ -214,11 +222,35 @@ def run(ctx):
                            v, T, "".join(descr["pattern"]), "raises an exception" if out == "IRaises" else "returns other slices/values"), "replay": descr})
             ctx.count("m_eff:" + v); ctx.case(("m_eff", v, T, pat, tuple(vals[:3])), nontrivial=not all(pat))
     if sc:
-        bm, bs = common.judge_cases(ctx, "C15s", HDR, "scase", [c["term"] for c in sc], ["scase_model_ok", "scase_spec_ok"], shard=150)
+        hdr = HDR if gen_ok else HDR.replace("From PVG Require Import StencilGen.\n", "")    # failing-input search against the specification alone
+        bm, bs = common.judge_cases(ctx, "C15s", hdr, "scase", [c["term"] for c in sc], ["scase_model_ok", "scase_spec_ok"], shard=150)
         common.settle(ctx, "stencils", sc, bm, bs, "regenerated stencils (run in Coq) reproduce deriv/second_deriv on every generated None pattern")
     if mc:
-        bm, bs = common.judge_cases(ctx, "C15m", HDR, "mcase", [c["term"] for c in mc], ["mcase_model_ok", "mcase_spec_ok"], shard=150)
+        hdr = HDR if gen_ok else HDR.replace("From PVG Require Import StencilGen.\n", "")
+        bm, bs = common.judge_cases(ctx, "C15m", hdr, "mcase", [c["term"] for c in mc], ["mcase_model_ok", "mcase_spec_ok"], shard=150)
         common.settle(ctx, "m_eff", mc, bm, bs, "regenerated m_eff loops (run in Coq) reproduce m_eff(log|logsym|arccosh) on every generated None pattern")
+
+    def check_defined(fam, v, res, obs, pat, T, offs, f):
+        """definedness: exactly where every referenced slice is defined and the documented formula has a real value"""
+        for t in range(T):
+            refd = all(0 <= t + k < T and pat[t + k] for k in offs)
+            if (res is not None and res.content[t] is not None) and not refd:
+                ctx.fail("%s:%s:defined-where-reference-undefined" % (fam, v), "%s('%s') is defined at t=%d although a referenced timeslice is undefined" % (fam, v, t),
+                         {"method": fam, "variant": v, "T": T, "pattern": pat, "t": t})
+            if refd:
+                # ... and the documented formula has a real value there (logarithm of a positive number, arccosh of a number >= 1)
+                vv = np.array([float(obs[t + k].value) for k in offs])
+                with np.errstate(all="ignore"):
+                    try:
+                        y = float(f(vv))
+                    except Exception:
+                        y = float("nan")
+                if (res is not None and res.content[t] is not None) and not math.isfinite(y):
+                    ctx.fail("%s:%s:defined-without-real-value" % (fam, v), "%s('%s') is defined at t=%d although the documented formula has no real value for the central values %s" % (fam, v, t, vv.tolist()),
+                             {"method": fam, "variant": v, "T": T, "pattern": pat, "t": t, "referenced_values": vv.tolist(), "impl_value": float(res.content[t][0].value)})
+                if (res is None or res.content[t] is None) and math.isfinite(y):
+                    ctx.fail("%s:%s:undefined-although-formula-real" % (fam, v), "%s('%s') is undefined at t=%d although every referenced timeslice is defined and the documented formula gives %r" % (fam, v, t, y),
+                             {"method": fam, "variant": v, "T": T, "pattern": pat, "t": t, "referenced_values": vv.tolist()})
 
     # ---------------------------------------------------------------- (X) observable level: identity between observables
     dc = []
@@ -228,6 +260,8 @@ def run(ctx):
         T = rng.randint(6, 14)
         kind = rng.choice(["positive", "positive", "cosh"])
         fam = rng.choice(["deriv", "deriv", "second_deriv", "second_deriv", "m_eff", "m_eff", "plateau", "plateau"])
+        if fam in ("deriv", "second_deriv", "m_eff") and rng.random() < 0.35:
+            kind = "signed"        # sign-changing integers, exact zeros included: the logarithmic variants are undefined on part of the timeslices
         if i >= nobs:
             # root-finder variants: even and odd T alike (the midpoint T/2 is a half-integer for odd T)
             fam, kind, T = "root", "cosh", [7, 8, 9, 10, 11, 13][i % 6]
@@ -252,12 +286,7 @@ def run(ctx):
                         continue
                     raise
                 ts = [t for t in range(T) if res.content[t] is not None]
-                # definedness: exactly where every referenced slice is defined (and the formula has a real value)
-                for t in range(T):
-                    refd = all(0 <= t + k < T and pat[t + k] for k in offs)
-                    if res.content[t] is not None and not refd:
-                        ctx.fail("%s:%s:defined-where-reference-undefined" % (fam, v), "%s('%s') is defined at t=%d although a referenced timeslice is undefined" % (fam, v, t),
-                                 {"method": fam, "variant": v, "T": T, "pattern": pat, "t": t})
+                check_defined(fam, v, res, obs, pat, T, offs, f)
                 if not ts:
                     continue
                 t = rng.choice(ts)
@@ -278,28 +307,36 @@ def run(ctx):
                 ts = [t for t in range(T - 1) if res.content[t] is not None and not (v == "sinh" and t in (T / 2, T / 2 - 1))]
                 if not ts:
                     continue
+                # definedness on every defined timeslice: no real solution by sign (sinh(m a) / sinh(m b) has the sign of a * b for every m > 0 and is
+                # -1 for every m when t < T/2 < t+1; cosh ratios are positive) or by range (the ratio runs monotonically from its m -> 0 limit,
+                # 1 for cosh and a / b for sinh, to infinity for |a| > |b| or to zero for |a| < |b|)
+                nosol = set()
+                for tt in ts:
+                    a_, b_, r_ = tt - T / 2, tt + 1 - T / 2, float(obs[tt].value) / float(obs[tt + 1].value)
+                    if (v == "sinh" and a_ * b_ > 0 and r_ < 0) or (v == "sinh" and a_ * b_ < 0 and (r_ > 0 or abs(r_ + 1) > 1e-6)) or (v != "sinh" and r_ <= 0):
+                        nosol.add(tt)
+                        ctx.fail("observable-level:defined-without-solution:m_eff:" + v,
+                                 "m_eff('%s') is defined at t=%d (T=%d) although the ratio C(t)/C(t+1) = %r admits no real solution of the documented equation" % (v, tt, T, r_),
+                                 {"variant": v, "t": tt, "T": T, "ratio": r_, "pattern": pat})
+                        continue
+                    if v == "sinh" and a_ * b_ <= 0:
+                        continue
+                    lim_ = 1.0 if v != "sinh" else a_ / b_
+                    if (r_ - lim_) * (abs(a_) - abs(b_)) < -1e-6 * abs(lim_):
+                        nosol.add(tt)
+                        ctx.fail("observable-level:defined-without-solution:ratio-out-of-range:m_eff",
+                                 "m_eff('%s') is defined at t=%d (T=%d) although the ratio C(t)/C(t+1) = %r lies outside the range of the documented ratio (no real solution)" % (v, tt, T, r_),
+                                 {"variant": v, "t": tt, "T": T, "ratio": r_, "limit_at_m_0": lim_, "pattern": pat})
+                ts = [x for x in ts if x not in nosol]
+                if not ts:
+                    continue
                 t = rng.choice(ts)
                 mid = [x for x in (T // 2 - 1, T // 2) if x in ts]
-                if v == "sinh" and mid and rng.random() < 0.75:
-                    t = rng.choice(mid)        # for odd T the middle timeslices are ordinary roots (nothing is filled in): judge them
+                if v == "sinh" and mid:
+                    t = mid[0]        # for odd T the timeslice below the midpoint is an ordinary root (nothing is filled in): always judged
                 ops = [obs[t], obs[t + 1]]
                 r = res.content[t][0]
                 vs = [float(o.value) for o in ops]
-                # no real solution by sign alone: sinh(m a) / sinh(m b) has the sign of a * b for every m > 0, cosh ratios are positive
-                a_, b_, r_ = t - T / 2, t + 1 - T / 2, vs[0] / vs[1]
-                if (v == "sinh" and a_ * b_ != 0 and (a_ * b_ > 0) != (r_ > 0)) or (v != "sinh" and r_ <= 0):
-                    ctx.fail("observable-level:defined-without-solution:m_eff:" + v,
-                             "m_eff('%s') is defined at t=%d (T=%d) although the ratio C(t)/C(t+1) = %r admits no real solution of the documented equation" % (v, t, T, r_),
-                             {"variant": v, "t": t, "T": T, "ratio": r_, "pattern": pat})
-                    continue
-                # no real solution by range: func(m a) / func(m b) runs monotonically from its m -> 0 limit (1 for cosh, a / b for sinh)
-                # to infinity (|a| > |b|) or to zero (|a| < |b|)
-                lim_ = 1.0 if v != "sinh" else a_ / b_
-                if (r_ - lim_) * (abs(a_) - abs(b_)) < -1e-6 * abs(lim_):
-                    ctx.fail("observable-level:defined-without-solution:ratio-out-of-range:m_eff",
-                             "m_eff('%s') is defined at t=%d (T=%d) although the ratio C(t)/C(t+1) = %r lies outside the range of the documented ratio (no real solution)" % (v, t, T, r_),
-                             {"variant": v, "t": t, "T": T, "ratio": r_, "limit_at_m_0": lim_, "pattern": pat})
-                    continue
                 sol = _cosh_root(v, t, T, vs[0] / vs[1])
                 if sol is None:
                     ctx.skip("root: independent solver found no bracket")
@@ -373,6 +410,21 @@ def run(ctx):
                    "replay": {"descr": descr, "operands": [obsutil.obs_struct(o) for o in ops], "impl": obsutil.obs_struct(r)}})
         ctx.count("identity:" + fam)
         ctx.case(("obs", name, T, pat, round(val, 9)), sample={"what": name, "spec_value": val, "impl_value": float(r.value), "spec_grads": gs[:4]})
+    # the logarithmic derivative variants on sign-changing data: definedness on every timeslice
+    for j in range(16 if quick else 200):
+        T = rng.randint(5, 12)
+        obs = base_obs(T, "signed")
+        pat = tuple(rng.random() < 0.85 for _ in range(T))
+        corr = _mk_corr(pe, obs, pat)
+        for fam in ("deriv", "second_deriv"):
+            offs, f = _doc(fam, "log", T)
+            try:
+                res = getattr(corr, fam)("log")
+            except Exception:
+                res = None        # refused as a whole (any exception): allowed only if no output timeslice has a real value, which check_defined decides
+            check_defined(fam, "log", res, obs, pat, T, offs, f)
+            ctx.case(("log-definedness", fam, T, pat, tuple(float(o.value) for o in obs[:3])), nontrivial=True)
+            ctx.count("definedness:%s:log" % fam)
     # a fixed correlator whose ratios leave the range of the cosh / sinh ratio on several timeslices (growing in the first half)
     fixed_vals = [1.0, 1.2, 1.1, 1.3, 1.0, 1.4, 1.2, 1.5]
     fc = pe.Corr([obsutil.make_obs(pe, rng, {"ens": list(range(1, 8))}, "positive") * 0.001 + x for x in fixed_vals])
